@@ -9,6 +9,8 @@ package innerring
 
 import (
 	"context"
+
+	"github.com/nspcc-dev/neofs-sdk-go/container/acl"
 	"fmt"
 	"math/big"
 	"os"
@@ -456,12 +458,20 @@ func (h *irWorld) enumerate() {
 func (h *irWorld) request(kind string) *payload.P2PNotaryRequest {
 	salt := h.nextSalt()
 	call := h.w.BuildCall(kind, 0, salt)
+	calls := []zsim.Call{call}
+	if kind == "container.createV2" && salt%3 != 0 {
+		// the creation request may carry the eACL of the new container as a second call: one event,
+		// one main transaction (it must still be co-signed once)
+		_, _, id := zsim.NewContainer(zsim.KOwner, salt, 1, acl.PublicRWExtended, "", "")
+		calls = append(calls, zsim.Call{Contract: h.w.Container, Method: "putEACL", Args: h.w.EACLArgs(id, zsim.KOwner, salt)})
+		h.r.Probe("createV2 request with the optional putEACL call")
+	}
 	fs := h.w.FS
 	fs.Lock()
 	comm := append(keys.PublicKeys(nil), fs.Committee...)
 	nvb := fs.Blocks + 20
 	fs.Unlock()
-	return h.w.BuildRequest([]zsim.Call{call}, comm, zsim.ReqShape{NVB: nvb, Nonce: salt, Invoker: salt%2 == 0})
+	return h.w.BuildRequest(calls, comm, zsim.ReqShape{NVB: nvb, Nonce: salt, Invoker: salt%2 == 0})
 }
 
 func (h *irWorld) pushNotification(chain string, ev *state.ContainedNotificationEvent) {
